@@ -61,7 +61,70 @@ pub fn dispatch(cfg: &Cfg, child: bool) -> (Report, Vec<(&'static str, J)>) {
             run_child(cfg, &bin, scale, &mut rep, &mut extra);
         }
     }
+    if !child && cfg.replay.is_none() && (cfg.prop == "C13" || cfg.prop == "C14") {
+        if let Ok(dir) = std::env::var("VERIF_MIRI_DIR") {
+            run_miri(cfg, &dir, &mut rep, &mut extra);
+        }
+    }
     (rep, extra)
+}
+
+/// Supplementary executor: the same binary with a miniature workload under Miri, to show that the
+/// bytes the monitors judge are not produced through undefined behaviour (zerocopy `as_bytes()` on
+/// packed structs, the harness's own arena). An oracle failure under Miri is a violation like any
+/// other; a Miri diagnostic (or any abnormal end) makes this stage inconclusive, never a violation.
+fn run_miri(cfg: &Cfg, harness_dir: &str, rep: &mut Report, extra: &mut Vec<(&'static str, J)>) {
+    let t0 = std::time::Instant::now();
+    let out = std::process::Command::new("cargo")
+        .current_dir(harness_dir)
+        .args(["+nightly", "miri", "run", "--offline", "--bin", "verif", "--"])
+        .arg(&cfg.prop)
+        .args(["--child", "--mini", "--tier", "quick", "--seed"])
+        .arg(cfg.seed.to_string())
+        .env("MIRIFLAGS", "-Zmiri-disable-isolation")
+        .env("VERIF_THREADS", "1")
+        .env("CARGO_TARGET_DIR", format!("{}/target/miri", harness_dir))
+        .env_remove("VERIF_CHECKED_BIN")
+        .env_remove("VERIF_MIRI_DIR")
+        .output();
+    match out {
+        Err(e) => rep.inconclusive(format!("cannot start the Miri stage: {}", e)),
+        Ok(o) => {
+            let text = String::from_utf8_lossy(&o.stdout).to_string();
+            let err = String::from_utf8_lossy(&o.stderr).to_string();
+            let mut ev = None;
+            for l in text.lines() {
+                if let Some(j) = l.strip_prefix("CHILD-EVIDENCE ") {
+                    ev = crate::json::parse(j).ok();
+                } else if l.starts_with("VIOLATION") || l.starts_with("  ") {
+                    println!("{}", l);
+                }
+            }
+            let ub = err.contains("Undefined Behavior") || err.contains("error: unsupported operation");
+            match (o.status.code(), ub) {
+                (Some(0), false) => {}
+                (Some(1), false) => {
+                    let n = ev.as_ref().and_then(|e| e.get("violations")).and_then(|v| v.as_i128()).unwrap_or(1).max(1);
+                    rep.violation_count += n as u64;
+                    rep.cov_n("violations_reported_by_miri_stage", n as u64);
+                }
+                (c, _) => {
+                    let tail: String = err.lines().rev().take(12).collect::<Vec<_>>().into_iter().rev().collect::<Vec<_>>().join(" | ");
+                    rep.inconclusive(format!("Miri stage ended with status {:?} (diagnostic: {}); not a verdict: {}", c, ub, tail.chars().take(600).collect::<String>()));
+                }
+            }
+            let pick = |k: &str| ev.as_ref().and_then(|e| e.get("coverage")).and_then(|c| c.get(k)).cloned().unwrap_or(J::Null);
+            extra.push((
+                "miri_stage",
+                crate::json::obj(vec![
+                    ("evaluations", pick("evaluations")),
+                    ("observation_points", pick("observation_points")),
+                    ("undefined_behaviour_reported", J::Bool(ub)),
+                    ("wall_s", J::Num(t0.elapsed().as_secs_f64())),
+                ]),
+            ));
+        }
+    }
 }
 
 fn run_child(cfg: &Cfg, bin: &str, scale: u64, rep: &mut Report, extra: &mut Vec<(&'static str, J)>) {
